@@ -200,7 +200,28 @@ def op_mutate_same(op):
     return None
 
 
-OPS = {"mutate_same": op_mutate_same, "netlist": op_netlist, "die": op_die, "die_refine": op_die_refine, "alloc": op_alloc, "stog": op_stog, "pb": op_pb, "legal": op_legal, "strop": op_strop}
+def op_heule_deep(op):
+    """at-most-one over many literals with chain width 3: the chained encoding recurses once per two literals"""
+    from tools.rect import satmanager
+    sm = satmanager.SATManager()
+    lits = [sm.newvar(f"v{k}") for k in range(op["n"])]
+    sm.heuleencoding(lits, 3)
+    sm.add_clause([lits[op["n"] // 2]])
+    return {"clauses": len(sm.clauses), "solve": bool(sm.solve()), "true": sum(sm.value(l) for l in lits)}
+
+
+def op_pb_big(op):
+    """one inequality over hundreds of variables (small diagram: all coefficients 1, small bound)"""
+    from tools.rect import satmanager, pseudobool as pb
+    sm = satmanager.SATManager()
+    e = pb.Expr()
+    for k in range(op["n"]):
+        e = e + sm.newvar(f"w{k}")
+    sm.pseudoboolencoding(e >= op["bound"], op.get("decomp", False))
+    return {"clauses": len(sm.clauses), "solve": bool(sm.solve())}
+
+
+OPS = {"heule_deep": op_heule_deep, "pb_big": op_pb_big, "mutate_same": op_mutate_same, "netlist": op_netlist, "die": op_die, "die_refine": op_die_refine, "alloc": op_alloc, "stog": op_stog, "pb": op_pb, "legal": op_legal, "strop": op_strop}
 
 
 class OpTimeout(BaseException):
